@@ -16,7 +16,8 @@ import (
 func init() {
 	register(&RuleSet{
 		ID: "C14",
-		Explanation: "R9 (ESP) VersionControl.GetChangeOps is called at most once per attempt (no second retry level below the budgeted loop). " +
+		Explanation: "R10 the list of repositories an endorsement is submitted to (Context.VCSs, kept in the shared context) grows by the primary repository (Context.VCS) only where the list was found empty: an unconditional append lists one repository twice on a second call or when it is also named in the list, and the endorsement is then submitted to it twice, each time with a full retry budget. " +
+			"R9 (ESP) VersionControl.GetChangeOps is called at most once per attempt (no second retry level below the budgeted loop). " +
 			"R8 (ESP) no workspace function of package endorse returns a nil error on a path on which its latest ChangeOps.ReadFile failed without ChangeOps.IsNotFound saying so. " +
 			"On endorse.RetrySubmit (the retry loop) and the attempt function (discovered: the function of package endorse that invokes VersionControl.GetChangeOps): " +
 			"R1 (ESP) a further attempt starts only after the previous attempt failed and VersionControl.RetriableError returned true for an error value derived from that attempt; " +
@@ -47,6 +48,7 @@ func runC14(c *Ctx) {
 	isGet := func(call ssa.CallInstruction) bool {
 		return invokeIs(call, endorsePkg, "VersionControl", "GetChangeOps")
 	}
+	c14RepositoryListedOnce(c)
 	// the attempt function: what the retry loop of RetrySubmit calls and whose call closure obtains
 	// the workspace (directly or through helpers)
 	var attemptFns []*ssa.Function
@@ -955,4 +957,112 @@ func c14ReadFailures(c *Ctx) {
 	}
 	c.S.Floor("R8", "workspace functions of package endorse that read files", 3, n)
 	c.S.Floor("R8", "ChangeOps.ReadFile calls reached", 2, nRead)
+}
+
+// c14RepositoryListedOnce is R10: a store into the endorse context's repository list (Context.VCSs) of an append that
+// adds the context's primary repository (Context.VCS) is made only under a dominating condition that the list is
+// empty (len == 0), or under a condition computed by a call that is handed both the list and the repository (a
+// membership test). Otherwise a second submission of the same endorsement to one repository is possible.
+func c14RepositoryListedOnce(c *Ctx) {
+	isCtxField := func(v ssa.Value, name string) bool {
+		fa, ok := v.(*ssa.FieldAddr)
+		return ok && flow.IsFieldLoad(fa, repoPath("endorse"), "Context", name)
+	}
+	loadsField := func(v ssa.Value, name string) bool {
+		v = stripConv(v)
+		if ld, ok := v.(*ssa.UnOp); ok && ld.Op == token.MUL {
+			return isCtxField(ld.X, name)
+		}
+		return false
+	}
+	n := 0
+	for _, f := range c.P.RepoFunctions() {
+		if c.isTestFunc(f) || f.Blocks == nil {
+			continue
+		}
+		for _, b := range f.Blocks {
+			for _, in := range b.Instrs {
+				st, ok := in.(*ssa.Store)
+				if !ok || !isCtxField(st.Addr, "VCSs") {
+					continue
+				}
+				call, ok := st.Val.(*ssa.Call)
+				if !ok {
+					continue
+				}
+				bi, ok := call.Call.Value.(*ssa.Builtin)
+				if !ok || bi.Name() != "append" || len(call.Call.Args) != 2 || !loadsField(call.Call.Args[0], "VCSs") {
+					continue
+				}
+				// the appended elements contain the primary repository
+				addsPrimary := false
+				seen := map[ssa.Value]bool{}
+				var walk func(v ssa.Value, d int)
+				walk = func(v ssa.Value, d int) {
+					if d > 6 || seen[v] || addsPrimary {
+						return
+					}
+					seen[v] = true
+					if loadsField(v, "VCS") {
+						addsPrimary = true
+						return
+					}
+					switch x := v.(type) {
+					case *ssa.Slice:
+						walk(x.X, d+1)
+					case *ssa.Alloc:
+						for _, r := range *x.Referrers() {
+							if ia, ok := r.(*ssa.IndexAddr); ok {
+								for _, r2 := range *ia.Referrers() {
+									if s2, ok := r2.(*ssa.Store); ok && s2.Addr == ssa.Value(ia) {
+										walk(s2.Val, d+1)
+									}
+								}
+							}
+						}
+					case *ssa.ChangeInterface:
+						walk(x.X, d+1)
+					case *ssa.MakeInterface:
+						walk(x.X, d+1)
+					}
+				}
+				walk(call.Call.Args[1], 0)
+				if !addsPrimary {
+					continue
+				}
+				n++
+				guarded := ""
+				for _, cf := range dominatingConds(b) {
+					bo, ok := cf.Cond.(*ssa.BinOp)
+					if ok {
+						isLenList := func(v ssa.Value) bool {
+							a, ok := lenArg(stripConv(v))
+							return ok && loadsField(a, "VCSs")
+						}
+						op, other, ok := relFact(cf, isLenList)
+						if k, isK := constInt(other); ok && isK {
+							if (op == token.EQL && k == 0) || (op == token.LSS && k == 1) || (op == token.LEQ && k == 0) {
+								guarded = "the list was found empty"
+							}
+						}
+						_ = bo
+						continue
+					}
+					if cc, ok := cf.Cond.(*ssa.Call); ok {
+						hasList, hasRepo := false, false
+						for _, a := range cc.Call.Args {
+							hasList = hasList || loadsField(a, "VCSs")
+							hasRepo = hasRepo || loadsField(a, "VCS")
+						}
+						if hasList && hasRepo {
+							guarded = "a membership test over the list and the repository decides"
+						}
+					}
+				}
+				c.S.Check(guarded != "", "R10", load.FuncName(f)+":primary repository appended to the list", c.pos(st.Pos()), "the primary repository joins the shared list only where "+guarded,
+					"the primary repository (Context.VCS) is appended to the shared repository list (Context.VCSs) without the list having been found empty: after a second call, or when the list already names it, one repository is listed twice and receives the endorsement twice, each submission with its own retry budget")
+			}
+		}
+	}
+	c.S.Count("primary_repository_appends", n)
 }
